@@ -39,6 +39,7 @@ static int lookup(const char* name, int idx, uint64_t* out) {
 }
 
 void fsvn_assume(int c) { if (!c) longjmp(jb, 1); }
+void fsvn_skip(void) { longjmp(jb, 1); }
 void fsvn_assert(int c, const char* msg) {
   if (!c && !failed) { failed = 1; snprintf(failmsg, sizeof failmsg, "%s", msg); }
 }
